@@ -33,7 +33,7 @@ var junks = []junk{
 	{name: "unknown-crd-kind", ext: ".yaml", document: true, content: "apiVersion: example.com/v1\nkind: Widget\nmetadata: {name: wd, namespace: ns1}\nspec: {size: 3}\n"},
 	{name: "txt-non-manifest", ext: ".txt", content: "this is not a manifest\n  : : :\n"},
 	{name: "yaml-syntax-error-file", ext: ".yaml", severe: true, marker: "zzbroken", content: "apiVersion: v1\nkind: Pod\nmetadata:\n  name: zzbroken\n   labels: [unclosed\n"},
-	{name: "yaml-without-kind", ext: ".yaml", severe: true, marker: "zznokind", content: "apiVersion: v1\nmetadata: {name: zznokind}\n"},
+	{name: "yaml-without-kind", ext: ".yaml", document: true, severe: true, marker: "zznokind", content: "apiVersion: v1\nmetadata: {name: zznokind}\n"},
 	{name: "netpol-failing-schema", ext: ".yaml", document: true, severe: true, marker: "zzbadnp", content: "apiVersion: networking.k8s.io/v1\nkind: NetworkPolicy\nmetadata: {name: zzbadnp, namespace: ns1}\nspec:\n  podSelector: {}\n  ingress: not-a-list\n"},
 	{name: "deployment-failing-schema", ext: ".yaml", document: true, severe: true, marker: "zzbaddep", content: "apiVersion: apps/v1\nkind: Deployment\nmetadata: {name: zzbaddep, namespace: ns1}\nspec:\n  replicas: many\n  template: {metadata: {labels: {app: zz}}, spec: {containers: [{name: c, image: x}]}}\n"},
 	{name: "namespace-failing-schema", ext: ".yaml", document: true, severe: true, marker: "zzbadns", content: "apiVersion: v1\nkind: Namespace\nmetadata:\n  name: zzbadns\nspec:\n  finalizers: just-one\n"},
